@@ -32,7 +32,15 @@
 (* "\\" and "/" on Windows (there the operating system also splits paths   *)
 (* on backslashes).                                                        *)
 (*                                                                         *)
-(* Switches (pardir / sep / split) say which conditions of                 *)
+(* White space.  The atoms in Blanks (" ", TAB, NL, NBSP, ...) are ORDINARY *)
+(* name characters: the segment ".. " is a file name of three characters,  *)
+(* not a parent reference, and neither the loader nor the (POSIX) operating*)
+(* system ever strips it.  The switch "verbatim" says that the pieces which*)
+(* pass the check are used exactly as they were checked; with verbatim off *)
+(* the pieces are white-space-normalised (Strip) AFTER the check, so that  *)
+(* ".. " passes as a file name and is then joined as "..".                 *)
+(*                                                                         *)
+(* Switches (pardir / sep / split / verbatim) say which conditions of      *)
 (* split_template_path are present; all TRUE is the code.  The C28_*       *)
 (* invariants are stated for the code's setting; for every other setting   *)
 (* in Switches the model reports (leak |-> TRUE) when a behaviour opens a  *)
@@ -46,7 +54,8 @@ CONSTANTS
     MaxSegs,      \* names have 1..MaxSegs fragments
     LastFrags,    \* fragments allowed in position MaxSegs (= Frags for the exhaustive instance)
     Platforms,    \* set of [sep, altsep] ("" = None)
-    Switches,     \* set of [pardir, sep, split] (BOOLEANs)
+    Switches,     \* set of [pardir, sep, split, verbatim] (BOOLEANs)
+    Blanks,       \* the word atoms that stand for white space (ordinary name characters for the loaders)
     Files,        \* set of absolute locations (Seq of components, a component is a Seq(Atom)) that are regular files
     Loaders       \* function: loader id -> [dirs : Seq(location), norm : BOOLEAN]
 
@@ -60,7 +69,7 @@ DOT == <<".">>
 DOTDOT == <<".", ".">>
 Last(s) == s[Len(s)]
 Front(s) == SubSeq(s, 1, Len(s) - 1)
-AsInCode == sw.pardir /\ sw.sep /\ sw.split
+AsInCode == sw.pardir /\ sw.sep /\ sw.split /\ sw.verbatim
 
 (* ---- text ------------------------------------------------------------- *)
 \* s.split(c) for a set of one-atom separators: always at least one piece
@@ -78,6 +87,13 @@ JoinWith(ss, sep) ==
     ELSE ss[1] \o <<sep>> \o JoinWith(Tail(ss), sep)
 
 Contains(s, a) == \E k \in 1..Len(s) : s[k] = a
+
+\* str.strip(): leading and trailing white space removed
+RECURSIVE LStrip(_)
+LStrip(s) == IF s # <<>> /\ Head(s) \in Blanks THEN LStrip(Tail(s)) ELSE s
+RECURSIVE RStrip(_)
+RStrip(s) == IF s # <<>> /\ Last(s) \in Blanks THEN RStrip(Front(s)) ELSE s
+Strip(s) == RStrip(LStrip(s))
 
 \* separators the operating system honours when it resolves a path
 OsSeps == {"/"} \cup ({plat.sep, plat.altsep} \ {""})
@@ -186,10 +202,13 @@ BadPiece(p) ==
     \/ sw.sep /\ plat.altsep # "" /\ Contains(p, plat.altsep)
     \/ sw.pardir /\ p = DOTDOT
 
+\* the piece as it is used after it passed the check
+Kept(p) == IF sw.verbatim THEN p ELSE Strip(p)
+
 Finish(o) ==
     /\ outcome' = o
     /\ pc' = "done"
-    /\ PrintT(ToJson([p |-> plat.sep, sw |-> <<sw.pardir, sw.sep, sw.split>>, l |-> lid, n |-> name, o |-> o,
+    /\ PrintT(ToJson([p |-> plat.sep, sw |-> <<sw.pardir, sw.sep, sw.split, sw.verbatim>>, l |-> lid, n |-> name, o |-> o,
                       op |-> opened', leak |-> (\E loc \in opened' : ~Inside(loc))]))
 
 SplitReject ==
@@ -200,14 +219,14 @@ SplitReject ==
 
 SplitKeep ==
     /\ pc = "split" /\ i <= Len(raw) /\ ~BadPiece(raw[i])
-    /\ raw[i] # <<>> /\ raw[i] # DOT
-    /\ pieces' = Append(pieces, raw[i])
+    /\ Kept(raw[i]) # <<>> /\ Kept(raw[i]) # DOT
+    /\ pieces' = Append(pieces, Kept(raw[i]))
     /\ i' = i + 1
     /\ UNCHANGED <<plat, sw, lid, name, nseg, raw, pc, d, opened, openedStr, outcome, reset>>
 
 SplitDrop ==
     /\ pc = "split" /\ i <= Len(raw) /\ ~BadPiece(raw[i])
-    /\ raw[i] = <<>> \/ raw[i] = DOT
+    /\ Kept(raw[i]) = <<>> \/ Kept(raw[i]) = DOT
     /\ i' = i + 1
     /\ UNCHANGED <<plat, sw, lid, name, nseg, raw, pc, pieces, d, opened, openedStr, outcome, reset>>
 
@@ -277,6 +296,17 @@ C28_PiecesClean ==
     AsInCode => \A k \in 1..Len(pieces) :
         /\ pieces[k] # <<>> /\ pieces[k] # DOT /\ pieces[k] # DOTDOT
         /\ \A s \in OsSeps : ~Contains(pieces[k], s)
+
+\* the pieces that are joined are pieces of the name exactly as they were checked (nothing is
+\* normalised -- stripped, folded -- between the check and the join)
+C28_PiecesVerbatim ==
+    AsInCode => \A k \in 1..Len(pieces) : \E j \in 1..Len(raw) : j < i /\ raw[j] = pieces[k] /\ ~BadPiece(raw[j])
+
+\* a segment that is a parent reference padded with white space is a file name: it is never followed
+\* upwards, and (no such file exists in the tree unless Files has it) the joined path keeps it verbatim
+C28_PaddedParentIsAName ==
+    AsInCode /\ pc = "done" /\ outcome # NF =>
+        \A k \in 1..Len(raw) : (Strip(raw[k]) = DOTDOT /\ raw[k] # DOTDOT) => Contains(outcome, raw[k])
 
 \* normpath (PackageLoader) does not change what the joined path means
 C28_NormpathNeutral ==
